@@ -93,6 +93,15 @@ class _PtsInterp(FinamInterp):
             return tuple(Sym("idgrid", k, tuple(shp)) for k in range(len(shp)))
         if short == "arange" and len(args) == 1:
             return Sym("arange", args[0])
+        if short == "prod" and args and isinstance(args[0], (tuple, list)):
+            return Sym("prod", tuple(args[0]))
+        if short == "unravel_index" and len(args) >= 2 and isinstance(args[0], Sym) and args[0].op == "posflat":
+            # positions numbered in order `of`, listed in order `to`, decoded as multi-indices of a block numbered in `dec`
+            shp, of, to = args[0].args
+            dec = kwargs.get("order", args[2] if len(args) > 2 else "C")
+            if tuple(args[1]) != tuple(shp) or dec != of:
+                raise AnalysisError("flat positions decoded for another block / numbering than they were made for")
+            return tuple(Sym("flat", k, tuple(shp), to) for k in range(len(shp)))
         if short == "broadcast_to" and len(args) == 2 and isinstance(args[0], Sym) and args[0].op == "axisvec":
             k, n = args[0].args
             shp = tuple(args[1])
@@ -116,6 +125,8 @@ class _PtsInterp(FinamInterp):
             return Sym("method", obj, attr)
         if isinstance(obj, Sym) and obj.op == "arange" and attr == "reshape":
             return Sym("method", obj, "reshape")
+        if isinstance(obj, Sym) and obj.op == "posgrid" and attr in ("reshape", "ravel", "flatten"):
+            return Sym("method", obj, attr)
         if isinstance(obj, Sym) and obj.op in ("ax", "rev", "pad_axis") and attr == "size":
             return Sym("len", obj)
         return super().get_attr(obj, attr, node, mod)
@@ -124,13 +135,22 @@ class _PtsInterp(FinamInterp):
         if isinstance(fv, Sym) and fv.op == "method" and fv.args[0].op == "arange":
             # np.arange(n).reshape((1, .., n, .., 1)): the index vector lying along one axis
             n = fv.args[0].args[0]
-            shp = list(args[0]) if len(args) == 1 and isinstance(args[0], (list, tuple)) else list(args)
+            shp = list(args[0]) if args and isinstance(args[0], (list, tuple)) else list(args)
+            if isinstance(n, Sym) and n.op == "prod" and tuple(n.args[0]) == tuple(shp):
+                # all positions of the block, numbered in the given order
+                return Sym("posgrid", tuple(shp), kwargs.get("order", args[1] if len(args) > 1 and isinstance(args[0], (list, tuple)) else "C"))
             along = [i for i, x in enumerate(shp) if x != 1]
             if len(along) == 1 and shp[along[0]] == n:
                 return Sym("axisvec", along[0], n)
             if not along and n == 1:
                 return Sym("axisvec", None, 1)  # the single index 0 of a one-point (padding) axis: the same along any axis
             raise AnalysisError("index vector reshaped to something else than a vector along one axis")
+        if isinstance(fv, Sym) and fv.op == "method" and fv.args[0].op == "posgrid":
+            g, m = fv.args
+            if m == "reshape" and (args[0] if args else kwargs.get("shape", kwargs.get("newshape"))) not in (-1, (-1,), [-1]):
+                raise AnalysisError("position grid reshaped to something else than a flat array")
+            order = kwargs.get("order", (args[1] if len(args) > 1 else "C") if m == "reshape" else (args[0] if args else "C"))
+            return Sym("posflat", g.args[0], g.args[1], order)
         if isinstance(fv, Sym) and fv.op == "method":
             g, m = fv.args
             if m == "reshape":
@@ -296,18 +316,156 @@ def _canon_flat(v):
     return v
 
 
+class _CArr:
+    """Exact small integer array (shape + entries in C order): index arithmetic on concrete block shapes."""
+
+    def __init__(self, shape, data):
+        self.shape, self.data = tuple(shape), list(data)
+
+    @staticmethod
+    def _indices(shape, order):
+        idx = list(itertools.product(*[range(n) for n in (shape if order == "C" else shape[::-1])]))
+        return idx if order == "C" else [i[::-1] for i in idx]
+
+    def _pos(self, idx):
+        p = 0
+        for n, i in zip(self.shape, idx):
+            p = p * n + i
+        return p
+
+    def seq(self, order="C"):
+        return [self.data[self._pos(i)] for i in self._indices(self.shape, order)]
+
+    def reshape(self, shape, order="C"):
+        shape = [shape] if isinstance(shape, int) else list(shape)
+        size = len(self.data)
+        if -1 in shape:
+            known = 1
+            for n in shape:
+                known *= n if n != -1 else 1
+            shape[shape.index(-1)] = size // known if known else 0
+        total = 1
+        for n in shape:
+            total *= n
+        if total != size:
+            raise ValueError("cannot reshape")
+        out = _CArr(shape, [None] * size)
+        for v, i in zip(self.seq(order), self._indices(tuple(shape), order)):
+            out.data[out._pos(i)] = v
+        return out
+
+    def transpose(self, axes=None):
+        axes = tuple(axes) if axes is not None else tuple(reversed(range(len(self.shape))))
+        shp = tuple(self.shape[a] for a in axes)
+        out = _CArr(shp, [None] * len(self.data))
+        for i in self._indices(shp, "C"):
+            src = [0] * len(axes)
+            for d, a in enumerate(axes):
+                src[a] = i[d]
+            out.data[out._pos(i)] = self.data[self._pos(src)]
+        return out
+
+    def swapaxes(self, a, b):
+        axes = list(range(len(self.shape)))
+        axes[a], axes[b] = axes[b], axes[a]
+        return self.transpose(axes)
+
+
+class _ConcreteNp(FinamInterp):
+    def ext_call(self, name, args, kwargs, node):
+        short = name.split(".")[-1]
+        a0 = args[0] if args else None
+        try:
+            if short == "prod" and isinstance(a0, (tuple, list)):
+                out = 1
+                for n in a0:
+                    out *= n
+                return out
+            if short == "arange" and isinstance(a0, int) and len(args) == 1:
+                return _CArr((a0,), range(a0))
+            if isinstance(a0, _CArr):
+                if short == "reshape":
+                    return a0.reshape(kwargs.get("newshape", kwargs.get("shape", args[1] if len(args) > 1 else None)), kwargs.get("order", args[2] if len(args) > 2 else "C"))
+                if short in ("ravel", "flatten"):
+                    return a0.reshape(-1, kwargs.get("order", args[1] if len(args) > 1 else "C"))
+                if short == "swapaxes":
+                    return a0.swapaxes(args[1], args[2])
+                if short == "transpose":
+                    return a0.transpose(kwargs.get("axes", args[1] if len(args) > 1 else None))
+                if short in ("asarray", "array", "ascontiguousarray", "copy"):
+                    return _CArr(a0.shape, a0.data)
+        except (ValueError, IndexError, TypeError) as exc:
+            self.on_raise(Sym("exc", type(exc).__name__, str(exc)), node)
+        return super().ext_call(name, args, kwargs, node)
+
+    def get_attr(self, obj, attr, node, mod):
+        if isinstance(obj, _CArr):
+            if attr in ("reshape", "ravel", "flatten", "transpose", "swapaxes", "copy", "astype"):
+                return Sym("cmethod", Ref(obj), attr)
+            if attr == "T":
+                return obj.transpose()
+            if attr == "shape":
+                return obj.shape
+            if attr == "size":
+                return len(obj.data)
+            if attr == "ndim":
+                return len(obj.shape)
+        return super().get_attr(obj, attr, node, mod)
+
+    def call_hook(self, fv, args, kwargs, node, mod):
+        if isinstance(fv, Sym) and fv.op == "cmethod":
+            a, m = fv.args[0].obj, fv.args[1]
+            try:
+                if m == "reshape":
+                    shp = args[0] if len(args) == 1 else tuple(args)
+                    return a.reshape(shp, kwargs.get("order", "C"))
+                if m in ("ravel", "flatten"):
+                    return a.reshape(-1, kwargs.get("order", args[0] if args else "C"))
+                if m == "transpose":
+                    return a.transpose(args[0] if len(args) == 1 and isinstance(args[0], (tuple, list)) else (args or None))
+                if m == "swapaxes":
+                    return a.swapaxes(args[0], args[1])
+                return _CArr(a.shape, a.data)
+            except (ValueError, IndexError, TypeError) as exc:
+                self.on_raise(Sym("exc", type(exc).__name__, str(exc)), node)
+        return super().call_hook(fv, args, kwargs, node, mod)
+
+
 def r32p_order_map(repo, sink):
     om = repo.func("src/finam/data/grid_tools.py", "order_map")
     shape, of, to = Sym("shape"), Sym("of"), Sym("to")
-    try:
-        got = _NpInterp(repo).run(om, [shape], {"of": of, "to": to})
-    except (AnalysisError, Undecided, Raised) as exc:
-        sink.unknown("R32", "order_map-definition", om, f"order_map outside vocabulary: {exc}")
-        return
     want = Sym("reshape", Sym("reshape", Sym("arange", Sym("prod", shape)), shape, of), -1, to)
-    got = _canon_flat(got)
-    sink.check(got == want, "R32", "order_map-definition", om, ok="order_map = arange(size).reshape(shape, of).reshape(-1, to)",
-               bad=f"order_map computes {got!r}; it must number the positions in order `of` and list them in order `to`")
+    try:
+        got = _canon_flat(_NpInterp(repo).run(om, [shape], {"of": of, "to": to}))
+    except (AnalysisError, Undecided, Raised):
+        got = None
+    if got == want:
+        sink.ok("R32", "order_map-definition", om, "order_map = arange(size).reshape(shape, of).reshape(-1, to)")
+        return
+    # another formulation than the defining one: decided by exact index arithmetic on concrete small blocks (1-3 axes, flat
+    # axes, every pair of orders) - shapes are configuration, not data
+    worst, n = None, 0
+    for shp in ((4,), (1,), (2, 3), (3, 2), (1, 3), (3, 1), (2, 3, 4), (4, 3, 2), (2, 2, 2), (1, 3, 2), (3, 1, 2), (3, 2, 1)):
+        for o_of, o_to in itertools.product(("C", "F"), repeat=2):
+            size = 1
+            for k in shp:
+                size *= k
+            ref = _CArr((size,), range(size)).reshape(shp, o_of).reshape(-1, o_to).data
+            try:
+                res = _ConcreteNp(repo).run(om, [tuple(shp)], {"of": o_of, "to": o_to})
+            except Raised as r:
+                worst = worst or f"order_map({shp}, of={o_of!r}, to={o_to!r}) raises {r.name}"
+                continue
+            except (AnalysisError, Undecided) as exc:
+                sink.unknown("R32", "order_map-definition", om, f"order_map outside vocabulary: {exc}")
+                return
+            n += 1
+            if not isinstance(res, _CArr) or list(res.data) != ref or len(res.shape) != 1:
+                worst = worst or (f"order_map({shp}, of={o_of!r}, to={o_to!r}) gives {getattr(res, 'data', res)!r}, the positions numbered in order `of` and "
+                                  f"listed in order `to` are {ref!r}")
+    sink.check(worst is None, "R32", "order_map-definition", om,
+               ok=f"order_map equals arange(size).reshape(shape, of).reshape(-1, to) on {n} concrete blocks (1-3 axes, flat axes, all order pairs)",
+               bad=worst or "")
 
 
 # ------------------------------------------------------------------------------------ casts
@@ -369,11 +527,25 @@ def r32p_casts(repo, sink):
 
 
 # -------------------------------------------------------------------------- data locations
-class _LocInterp(FinamInterp):
+def _loc_base():
+    from .link import _Tolerant
+    return _Tolerant
+
+
+class _LocInterp(_loc_base()):
+    """Only the validation of the location is watched: whatever else the setter keeps up to date (cached shapes, sizes) works on
+    opaque terms - the grid stand-in has no axes."""
+
     def call_hook(self, fv, args, kwargs, node, mod):
         if isinstance(fv, Closure) and getattr(fv.func, "name", "") == "get_enum_value":
             return args[0]
         return super().call_hook(fv, args, kwargs, node, mod)
+
+    def builtin(self, name, args, kwargs, node):
+        try:
+            return super().builtin(name, args, kwargs, node)
+        except AnalysisError:
+            return Sym("opaque", name)
 
 
 def r32p_locations(repo, sink):
@@ -623,7 +795,56 @@ def _marr(vals, caller=True, label="axis array"):
     return o
 
 
-class _OwnInterp(_NumInterp):
+def _has_marr(v):
+    if isinstance(v, _MArr):
+        return True
+    if isinstance(v, (list, tuple)):
+        return any(_has_marr(x) for x in v)
+    return False
+
+
+class _OwnTolerant(_NumInterp):
+    """What the constructor computes besides handling the given arrays (cached shapes, sizes, names) runs on opaque terms."""
+
+    def ext_call(self, name, args, kwargs, node):
+        try:
+            return super().ext_call(name, args, kwargs, node)
+        except AnalysisError:
+            if _has_marr(list(args) + list(kwargs.values())):
+                raise
+            return Sym("opaque", name)
+
+    def binop(self, op, left, right, node):
+        try:
+            return super().binop(op, left, right, node)
+        except AnalysisError:
+            if _has_marr([left, right]):
+                raise
+            return Sym("opaque", "binop")
+
+    def builtin(self, name, args, kwargs, node):
+        try:
+            return super().builtin(name, args, kwargs, node)
+        except AnalysisError:
+            if _has_marr(list(args)):
+                raise
+            return Sym("opaque", name)
+
+    def iterate(self, v, node):
+        if isinstance(v, Sym) and v.op == "opaque":
+            return []
+        return super().iterate(v, node)
+
+    def sym_compare(self, op, left, right, node):
+        try:
+            return super().sym_compare(op, left, right, node)
+        except Undecided:
+            if any(isinstance(x, Sym) and x.op == "opaque" for x in (left, right)):
+                return False
+            raise
+
+
+class _OwnInterp(_OwnTolerant):
     """numpy's aliasing rules for the calls a constructor makes on the arrays it is given: asarray / atleast_1d /
     ascontiguousarray of a float64 array ARE that array, array / copy / astype are new ones; `a[:] = ...` writes into the array."""
 
